@@ -203,7 +203,7 @@ CLAIMED = {
         design_ref="DESIGN.md 7 (C08)",
         note=COMMON_NOTE + "The model assumes TermDict.add_term is atomic (now guaranteed by a lock in the repaired code); "
              "ThreadPoolExecutor not modelled.",
-        technique="Coq proof (encode_spec append lemma, slotting under permutations, arrival-order dictionary injectivity) + forced-schedule differential check",
+        technique="Coq proof (encode_spec append lemma, slotting under permutations, arrival-order dictionary injectivity, cache-free reference evaluator) + forced-schedule differential check",
     ),
     "C16": dict(
         category="proof",
@@ -257,7 +257,7 @@ CLAIMED = {
              "ranged / phrase frequencies, docfreq, positions, BM25 scores, slicing, copies and cache warming; edismax is covered as a "
              "dynamic program (above); slop searches and custom similarities are NOT operations of the model: for them purity "
              "is decided only by the check (slop on shared views in the extra phase).",
-        technique="Coq proof (cache invariant by induction over operations, with two explicit premises) + op-sequence correspondence",
+        technique="Coq proof (cache invariant by induction over operations; postings premises proved for indexed corpora; dynamic programs for edismax) + op-sequence correspondence",
     ),
     "C09": dict(
         category="proof",
@@ -284,7 +284,7 @@ CLAIMED = {
              "query term - zero-term fields (repaired defects D30 / D40) are covered by the check and by C09_any_similarity only. "
              "That q_op=AND is passed on as mm='100%' is read off solr.py and replicated by the harness; "
              "C09_and_is_100pct says 100% of n clauses is n.",
-        technique="Coq proof (algebraic equality of algorithm and spec over Q) + three-way correspondence",
+        technique="Coq proof (algebraic equality of algorithm and spec over Q, BM25-specific and similarity-generic) + three-way correspondence incl. an any-similarity phase",
     ),
     "C10": dict(
         category="proof",
@@ -299,7 +299,7 @@ CLAIMED = {
         note=COMMON_NOTE + "Relies on view scores using whole-frame statistics (C06). 'Premise-free' means free of the view-score "
              "premise: wf_query's side conditions (n rows per field, non-negative idf table, tie and boosts >= 0, mm in the "
              "range of C11, at least one query term per field) remain hypotheses.",
-        technique="Coq proof (shingle enumeration + phase algebra, view premise explicit) + three-way correspondence",
+        technique="Coq proof (shingle enumeration + phase algebra; view premise proved for freshly indexed frames) + three-way correspondence",
     ),
 
     "C17": dict(
@@ -333,7 +333,7 @@ CLAIMED = {
         note=COMMON_NOTE + "Assumes no file of the directory is deleted between writing and unpickling (add-only directory histories, "
              "no concurrent writers, no foreign file named <k>.dat). Not modelled: pickle bytes, np.memmap, a fresh "
              "interpreter, the tokenizer (pickled by reference), the doc x term incidence matrix.",
-        technique="Coq proof (directory invariant) + history-based differential check incl. fresh interpreters",
+        technique="Coq proof (directory invariant; pickle model of arrays, views and their caches) + history-based differential check incl. fresh interpreters",
     ),
     "C20": dict(
         category="proof",
@@ -360,7 +360,7 @@ CLAIMED = {
              "custom similarities and position-ranged phrases are not queries of the dynamic-program model; the edismax program "
              "is compared with the real edismax by the real threads' results only (the model-side comparison of C20 uses "
              "term / phrase / score programs).",
-        technique="Coq proof (per-action invariant + good-value lemma => schedule independence) + threaded differential check",
+        technique="Coq proof (per-action invariant + good-value lemma => schedule independence, static and dynamic programs) + threaded differential check",
     ),
     "C15": dict(
         category="proof",
@@ -405,7 +405,7 @@ CLAIMED = {
         design_ref="DESIGN.md 7 (C19)",
         note=COMMON_NOTE + "pandas' concat / reindex machinery is exercised, not modelled. In-place assignment (arr[mask] = other, "
              "pandas where / fillna routes) is compared implementation vs spec only (no model of __setitem__).",
-        technique="Coq proof (re-keying lemma + index_ok of the rebuilt index) + three-way correspondence",
+        technique="Coq proof (re-keying lemma + index_ok of the rebuilt index + same-store congruence of every query) + three-way correspondence",
     ),
 }
 
